@@ -34,6 +34,9 @@ NoValues == {}
 
 RoutesAll == {"object", "factory", "method"}
 RoutesOne == {"object"}
+RoutesSix == {"object", "factory", "method", "callback2", "callback3", "callbackv"}
+ValuesRoutes == {"None", "s3", "abc"}
+KindsRoutes == {"Foreign", "TypeError", "TypeErrorOnce", "KeyboardInterrupt", "LibraryTagged"}
 ExitsNo == {FALSE}
 ListenerSet == {[b |-> "pass", v |-> "", k |-> ""], [b |-> "noise", v |-> "", k |-> ""]}
                \cup {[b |-> "handle", v |-> v, k |-> ""] : v \in ListenerValues}
